@@ -96,6 +96,32 @@ func Load(o Options) (*Program, error) {
 	if len(errs) > 0 {
 		return nil, fmt.Errorf("load errors: %s", strings.Join(errs, "; "))
 	}
+	// predicate helpers written back at their call sites (see inline.go); a rewrite that does not type-check is dropped
+	InlineLog = nil
+	if os.Getenv("MASTCHECK_NOINLINE") == "" && o.Patterns == nil {
+		cur := o.Overlay
+		for pass := 0; pass < 3; pass++ {
+			ov, log := inlineRewrite(pkgs, cur)
+			if ov == nil {
+				break
+			}
+			cfg2 := *cfg
+			cfg2.Overlay = ov
+			pkgs2, err2 := packages.Load(&cfg2, pats...)
+			bad := err2 != nil || len(pkgs2) != len(pkgs)
+			for _, p := range pkgs2 {
+				if len(p.Errors) > 0 || p.Types == nil || p.TypesInfo == nil || len(p.Syntax) == 0 {
+					bad = true
+				}
+			}
+			if bad {
+				InlineLog = append(InlineLog, "(a rewrite did not type-check and was dropped)")
+				break
+			}
+			pkgs, cur = pkgs2, ov
+			InlineLog = append(InlineLog, log...)
+		}
+	}
 	prog, spkgs := ssautil.Packages(pkgs, ssa.InstantiateGenerics)
 	prog.Build()
 	curFset = pkgs[0].Fset
